@@ -1,11 +1,13 @@
 (* one entry point for the extracted model: first integer = property / function selector *)
 From Coq Require Import ZArith List.
 Import ListNotations.
-Require Import EV.model.Cfg EV.model.Enc EV.model.ChanFileRun EV.model.GroupIds EV.model.C20Run EV.model.FrameRun EV.gen.Facts.
+Require Import EV.model.Cfg EV.model.Enc EV.model.ChanFileRun EV.model.GroupIds EV.model.C20Run EV.model.FrameRun EV.model.CodecRun EV.gen.Facts.
 Open Scope Z_scope.
 
 Definition dispatch (inp : list Z) : list Z :=
   match inp with
+  | 1 :: 0 :: r => run_dumps int_lo_checked r
+  | 1 :: 1 :: r => run_loads r
   | 8 :: 0 :: r => run_frames r
   | 8 :: 1 :: r => run_decode r
   | 8 :: 2 :: r => run_writers r
